@@ -451,11 +451,11 @@ class MementoFunction(MementoFunctionBase):
                             [rule.describe() for rule in changed_rules],
                         )
                     )
-                else:
-                    if self._calculated_version is None:
-                        self._calculated_version = entry.version
-                        self._update_fn_reference()
+                elif self._calculated_version is not None:
                     return
+                # else: this object has no version of its own yet, hence no hash rules that
+                # could vouch for the cached entry (e.g. a symbol that was undefined when the
+                # entry was made may have been defined since), so compute the version.
 
         # Otherwise, it needs to be calculated based on code hash and dependencies
         version = self._recompute_version()
